@@ -131,6 +131,11 @@ func (r *rw) premark(f *ast.File) {
 					r.marks[x] = "type:Timer"
 				case "time.Ticker":
 					r.marks[x] = "type:Ticker"
+				case "net.Dialer", "net.TCPConn":
+					// virtual TCP (zzvenv/vnet.go); harness files keep the real types
+					if !inVenv && !strings.HasPrefix(filepath.Base(r.fset.Position(f.Pos()).Filename), "zz_verif_") {
+						r.marks[x] = "vtype:" + tn.Name()
+					}
 				case "sync.Cond":
 					r.fail(x, "type %s.%s has no model", tn.Pkg().Path(), tn.Name())
 				}
@@ -397,6 +402,10 @@ func (r *rw) file(f *ast.File) {
 			if r.marks[x] == "type:Ticker" {
 				r.used = true
 				c.Replace(sel("Ticker"))
+			}
+			if strings.HasPrefix(r.marks[x], "vtype:") {
+				r.usedVenv = true
+				c.Replace(&ast.SelectorExpr{X: ast.NewIdent("zzvenv"), Sel: ast.NewIdent(strings.TrimPrefix(r.marks[x], "vtype:"))})
 			}
 		case *ast.SendStmt:
 			c.Replace(&ast.ExprStmt{X: method(x.Chan, "Send", x.Value)})
